@@ -96,6 +96,8 @@ def run_chain(case):
         kw["headers"]["Cookie"] = CALLER_COOKIE_HDR
         kw["headers"]["Proxy-Authorization"] = CALLER_PA
         kw["cookies"] = dict([REQ_COOKIE])
+        if case.get("chunked"):
+            kw["chunked"] = True          # the caller asks for chunked framing of its body
         if body_kind == "bytes":
             kw["data"] = BODY
         elif body_kind == "iter":
@@ -178,7 +180,7 @@ def header(m, name):
 
 def judge(part, case, records, result, hung, leaked):
     origins, hops = case["origins"], case["hops"]
-    tag = f"{case['method']} body={case['body']} chain={[o for o in origins]} hops={hops} max={case.get('max_redirects', 10)}"
+    tag = f"{case['method']} body={case['body']}{'/chunked' if case.get('chunked') else ''} chain={[o for o in origins]} hops={hops} max={case.get('max_redirects', 10)}"
 
     def V(sig, msg):
         part.violation(f"C17:{sig}", f"{tag}: {msg}", {"kind": "chain", "case": case})
@@ -329,6 +331,11 @@ def cases(quick):
         for s in (302, 307):
             out.append({"origins": [o0, o1, o2], "hops": [(s, "creds"), (s, "abs")], "method": "GET", "body": "none", "auth_header": False})
             out.append({"origins": [o0, o1, o2], "hops": [(s, "abs"), (s, "abs")], "method": "GET", "body": "none", "auth_header": False, "url_creds": True})
+    # a body sent chunked, then redirected: the follow-up request has the framing of *its* body (none after a GET rewrite)
+    for st in (301, 302, 303, 307, 308):
+        for mth in ("POST", "PUT"):
+            out.append({"origins": ["A", "A", "A"], "hops": [(st, "rel"), (302, "rel")], "method": mth, "body": "bytes", "chunked": True})
+            out.append({"origins": ["A", "B"], "hops": [(st, "abs")], "method": mth, "body": "bytes", "chunked": True})
     # a 3xx that carries no Location: first hop, behind another redirect, and at the max_redirects boundary
     for st in (301, 302, 303, 307, 308):
         for mth, body in (("GET", "none"), ("POST", "bytes")):
